@@ -408,12 +408,22 @@ func evalRS(c *core.Ctx, cs *core.Case) {
 		enc := utils.NewReedSolomonEncoder(realField(f))
 		for i, op := range cs.Ops {
 			n, kind := parseRSOp(op)
-			data := rsData(kind, f, n)
-			keep := append([]int(nil), data...)
+			keep := rsData(kind, f, n)
+			// the data is a window of a larger buffer (one block of several), with spare capacity on odd steps
+			buf := make([]int, len(keep)+2*n+8)
+			for j := range buf {
+				buf[j] = 1 + j%(f.size-1)
+			}
+			copy(buf[4:], keep)
+			whole := append([]int(nil), buf...)
+			data := buf[4 : 4+len(keep) : 4+len(keep)]
+			if i%2 == 0 {
+				data = buf[4 : 4+len(keep)]
+			}
 			res := enc.Encode(data, n)
 			c.R.Transitions++
-			if !peqRaw(data, keep) {
-				fail("op %d %s: Encode modified its data argument", i, op)
+			if !peqRaw(buf, whole) {
+				fail("op %d %s: Encode modified its data argument or the caller's buffer around it (data is elements 4..%d of a buffer of %d)", i, op, 4+len(keep), len(buf))
 				return
 			}
 			if msg := rsCheck(rf, f, keep, n, res); msg != "" {
